@@ -393,6 +393,21 @@ def lin_expected_indices(c):
     return sorted(exp)
 
 
+def angle_expressible(gpt):
+    """the angle right - left, clockwise in the station's n-e plane, lies well inside (0, 200 gon): the only range in
+    which rhs (acos, [0, 200 gon]) and coefficients (right - left) of Model::linearization(Angle*) agree (G4)"""
+    g = {r: [hex2float(x) for x in gpt[r][:21]] for r in ("frm", "left", "right")}
+    R = g["frm"][12:21]
+    az = {}
+    for r in ("left", "right"):
+        d = [g[r][3 + j] - g["frm"][3 + j] for j in range(3)]
+        n = R[0] * d[0] + R[3] * d[1] + R[6] * d[2]
+        e = R[1] * d[0] + R[4] * d[1] + R[7] * d[2]
+        az[r] = math.atan2(e, n)
+    a = (az["right"] - az["left"]) % (2 * math.pi)
+    return 0.05 < a < math.pi - 0.05
+
+
 def lin_stream(ctx, corr, exe):
     cases = [c["case"] for c in load_corpus(ctx, "lin")]
     cases += [gen_lin_case(ctx.rng) for _ in range(ctx.size(400, 6000))]
@@ -432,6 +447,9 @@ def lin_oracles(ctx, corr, exe, cases):
                               f"points are {exp}", {"stream": "lin", "case": c}, f"Model::linearization({c['type']})")
                     break
         if c["clean"] and c["type"] != "azimuth" and rows and all(len(g) >= 21 for g in gpt.values()):
+            if c["type"] == "angle" and not angle_expressible(gpt):
+                corr.count("lin angle cases outside (0, 200 gon) skipped by the derivative oracle (limitation G4)")
+                continue
             deriv_jobs.append((i, gpt, rows, rhs))
     for k, v in stat.items():
         corr.stats["lin_" + k] = v
